@@ -884,6 +884,11 @@ fn ws_line(cap: usize, f: impl FnOnce(&mut [u8]) -> String) -> String {
 
 fn space_err(e: &err::SliceWriteSpaceError) -> String {
     crate::util::touch(e);
+    // the conversion into the builder's error type keeps the REQUIRED length (what a caller has to provide)
+    let conv = err::packet::BuildSliceWriteError::from(e.clone());
+    if !matches!(conv, err::packet::BuildSliceWriteError::Space(n) if n == e.required_len) {
+        return format!("err(space(req={},len={}))!routes-differ(into_build_slice_write_error={:?})", e.required_len, e.len, conv);
+    }
     format!(
         "err(space(req={},len={},layer={:?},off={}))",
         e.required_len, e.len, e.layer, e.layer_start_offset
